@@ -167,7 +167,12 @@ Definition uf_op (sb : B) (sl : L) (u : ufile) (o : op) : B * L * ufile * res :=
         end
       else (sb, sl, Some (ufiles u), None) in
     match filled with
-    | (sb1, sl1, None, e) => (sb1, sl1, u, names (RInfos [] e))
+    | (sb1, sl1, None, e) =>
+      (* `return nil, err`: no entries and an error (canonical form of a failed listing: RErr) *)
+      (sb1, sl1, u, match e with
+                    | Some er => if errk_eqb (ek er) KEOF then names (RInfos [] e) else RErr er
+                    | None => names (RInfos [] None)
+                    end)
     | (sb1, sl1, Some all, _) =>
       let files := skipn (Z.to_nat (uoff u)) all in
       let u1 := mkUF (ubase u) (ulayer u) (uoff u) all in
@@ -225,8 +230,12 @@ Fixpoint io_copy (fuel : nat) (sb : B) (sl : L) (bh lh : nat) (written : Z) : B 
   end.
 
 (* copyFile(base, layer, name, bfh) *)
+(* the directory made sure of first: filepath.Dir(name), or (copyfile_cleans_name = 1) the Dir of the
+   cleaned name — they differ for names with a trailing separator or a final ".." *)
+Definition copy_dir (name : str) : str :=
+  if Z.eqb copyfile_cleans_name 1 then path_dir (clean name) else path_dir name.
 Definition copy_file (sb : B) (sl : L) (name : str) (bh : nat) : B * L * option err :=
-  let dir := path_dir name in
+  let dir := copy_dir name in
   let '(sl0, ex) := l_exists sl dir in
   match ex with
   | inr e => (sb, sl0, Some e)
